@@ -425,4 +425,7 @@ def finalize(agg):
             out.append(f'monitor {k} never evaluated')
     if c.get('rejected_attempts', 0) == 0:
         out.append('no restarted attempt was observed')
+    for k, why in (('all_hooks_runs', 'no run with every shipped hook was judged'), ('oracle:recomputed-filter-independent-of-type-filter', 'multi-key recomputed filter never compared'), ('oracle:record-keyed-by-a-step-time', 'key-time coherence never evaluated'), ('oracle:one-run-level-record', 'run-level records never counted')):
+        if c.get(k, 0) == 0:
+            out.append(why)
     return out
